@@ -1156,7 +1156,7 @@ func genTmuxE2E(c *ctx, want func(*tmxScn) bool) {
 		c.count("note:tmux-unavailable:every-scenario-failed-to-start")
 		return
 	}
-	junkT := &c16Real{trzsz.VerifNewLineTransfer(true, false)}
+	junkT := &c16Real{t: trzsz.VerifNewLineTransfer(true, false)}
 	for _, r := range results {
 		tmxJudge(c, r, junkT)
 	}
